@@ -4,6 +4,12 @@ Base/Num.vos Base/Num.vok Base/Num.required_vos: Base/Num.v
 Base/NumR.vo Base/NumR.glob Base/NumR.v.beautified Base/NumR.required_vo: Base/NumR.v Base/Num.vo
 Base/NumR.vio: Base/NumR.v Base/Num.vio
 Base/NumR.vos Base/NumR.vok Base/NumR.required_vos: Base/NumR.v Base/Num.vos
+Base/NumSqrt.vo Base/NumSqrt.glob Base/NumSqrt.v.beautified Base/NumSqrt.required_vo: Base/NumSqrt.v Base/Num.vo
+Base/NumSqrt.vio: Base/NumSqrt.v Base/Num.vio
+Base/NumSqrt.vos Base/NumSqrt.vok Base/NumSqrt.required_vos: Base/NumSqrt.v Base/Num.vos
+Base/NumSqrtR.vo Base/NumSqrtR.glob Base/NumSqrtR.v.beautified Base/NumSqrtR.required_vo: Base/NumSqrtR.v Base/Num.vo Base/NumR.vo Base/NumSqrt.vo
+Base/NumSqrtR.vio: Base/NumSqrtR.v Base/Num.vio Base/NumR.vio Base/NumSqrt.vio
+Base/NumSqrtR.vos Base/NumSqrtR.vok Base/NumSqrtR.required_vos: Base/NumSqrtR.v Base/Num.vos Base/NumR.vos Base/NumSqrt.vos
 Base/PyArith.vo Base/PyArith.glob Base/PyArith.v.beautified Base/PyArith.required_vo: Base/PyArith.v 
 Base/PyArith.vio: Base/PyArith.v 
 Base/PyArith.vos Base/PyArith.vok Base/PyArith.required_vos: Base/PyArith.v 
@@ -13,6 +19,12 @@ Base/Val.vos Base/Val.vok Base/Val.required_vos: Base/Val.v
 Gen/Casts.vo Gen/Casts.glob Gen/Casts.v.beautified Gen/Casts.required_vo: Gen/Casts.v Base/PyArith.vo
 Gen/Casts.vio: Gen/Casts.v Base/PyArith.vio
 Gen/Casts.vos Gen/Casts.vok Gen/Casts.required_vos: Gen/Casts.v Base/PyArith.vos
+Gen/Covariance.vo Gen/Covariance.glob Gen/Covariance.v.beautified Gen/Covariance.required_vo: Gen/Covariance.v Base/PyArith.vo Base/Num.vo Base/NumSqrt.vo
+Gen/Covariance.vio: Gen/Covariance.v Base/PyArith.vio Base/Num.vio Base/NumSqrt.vio
+Gen/Covariance.vos Gen/Covariance.vok Gen/Covariance.required_vos: Gen/Covariance.v Base/PyArith.vos Base/Num.vos Base/NumSqrt.vos
+Gen/Joins.vo Gen/Joins.glob Gen/Joins.v.beautified Gen/Joins.required_vo: Gen/Joins.v 
+Gen/Joins.vio: Gen/Joins.v 
+Gen/Joins.vos Gen/Joins.vok Gen/Joins.required_vos: Gen/Joins.v 
 Gen/Layout.vo Gen/Layout.glob Gen/Layout.v.beautified Gen/Layout.required_vo: Gen/Layout.v Base/PyArith.vo
 Gen/Layout.vio: Gen/Layout.v Base/PyArith.vio
 Gen/Layout.vos Gen/Layout.vok Gen/Layout.required_vos: Gen/Layout.v Base/PyArith.vos
@@ -22,15 +34,39 @@ Gen/Parallelize.vos Gen/Parallelize.vok Gen/Parallelize.required_vos: Gen/Parall
 Gen/StatCounter.vo Gen/StatCounter.glob Gen/StatCounter.v.beautified Gen/StatCounter.required_vo: Gen/StatCounter.v Base/PyArith.vo Base/Num.vo
 Gen/StatCounter.vio: Gen/StatCounter.v Base/PyArith.vio Base/Num.vio
 Gen/StatCounter.vos Gen/StatCounter.vok Gen/StatCounter.required_vos: Gen/StatCounter.v Base/PyArith.vos Base/Num.vos
+Gen/TypeTables.vo Gen/TypeTables.glob Gen/TypeTables.v.beautified Gen/TypeTables.required_vo: Gen/TypeTables.v 
+Gen/TypeTables.vio: Gen/TypeTables.v 
+Gen/TypeTables.vos Gen/TypeTables.vok Gen/TypeTables.required_vos: Gen/TypeTables.v 
+Gen/Window.vo Gen/Window.glob Gen/Window.v.beautified Gen/Window.required_vo: Gen/Window.v Base/PyArith.vo
+Gen/Window.vio: Gen/Window.v Base/PyArith.vio
+Gen/Window.vos Gen/Window.vok Gen/Window.required_vos: Gen/Window.v Base/PyArith.vos
 Model/Cast.vo Model/Cast.glob Model/Cast.v.beautified Model/Cast.required_vo: Model/Cast.v Base/Val.vo Gen/Casts.vo
 Model/Cast.vio: Model/Cast.v Base/Val.vio Gen/Casts.vio
 Model/Cast.vos Model/Cast.vok Model/Cast.required_vos: Model/Cast.v Base/Val.vos Gen/Casts.vos
+Model/Keyed.vo Model/Keyed.glob Model/Keyed.v.beautified Model/Keyed.required_vo: Model/Keyed.v Base/Val.vo Gen/Parallelize.vo
+Model/Keyed.vio: Model/Keyed.v Base/Val.vio Gen/Parallelize.vio
+Model/Keyed.vos Model/Keyed.vok Model/Keyed.required_vos: Model/Keyed.v Base/Val.vos Gen/Parallelize.vos
+Model/Layout.vo Model/Layout.glob Model/Layout.v.beautified Model/Layout.required_vo: Model/Layout.v Base/Val.vo Base/PyArith.vo Gen/Parallelize.vo Gen/Layout.vo
+Model/Layout.vio: Model/Layout.v Base/Val.vio Base/PyArith.vio Gen/Parallelize.vio Gen/Layout.vio
+Model/Layout.vos Model/Layout.vok Model/Layout.required_vos: Model/Layout.v Base/Val.vos Base/PyArith.vos Gen/Parallelize.vos Gen/Layout.vos
+Model/Stats.vo Model/Stats.glob Model/Stats.v.beautified Model/Stats.required_vo: Model/Stats.v Base/Val.vo Base/Num.vo Base/NumSqrt.vo Gen/StatCounter.vo Gen/Covariance.vo
+Model/Stats.vio: Model/Stats.v Base/Val.vio Base/Num.vio Base/NumSqrt.vio Gen/StatCounter.vio Gen/Covariance.vio
+Model/Stats.vos Model/Stats.vok Model/Stats.required_vos: Model/Stats.v Base/Val.vos Base/Num.vos Base/NumSqrt.vos Gen/StatCounter.vos Gen/Covariance.vos
 Proofs/Cast.vo Proofs/Cast.glob Proofs/Cast.v.beautified Proofs/Cast.required_vo: Proofs/Cast.v Base/Val.vo Gen/Casts.vo Model/Cast.vo
 Proofs/Cast.vio: Proofs/Cast.v Base/Val.vio Gen/Casts.vio Model/Cast.vio
 Proofs/Cast.vos Proofs/Cast.vok Proofs/Cast.required_vos: Proofs/Cast.v Base/Val.vos Gen/Casts.vos Model/Cast.vos
-Properties/C18.vo Properties/C18.glob Properties/C18.v.beautified Properties/C18.required_vo: Properties/C18.v Base/Val.vo Gen/Casts.vo Model/Cast.vo Proofs/Cast.vo
-Properties/C18.vio: Properties/C18.v Base/Val.vio Gen/Casts.vio Model/Cast.vio Proofs/Cast.vio
-Properties/C18.vos Properties/C18.vok Properties/C18.required_vos: Properties/C18.v Base/Val.vos Gen/Casts.vos Model/Cast.vos Proofs/Cast.vos
+Proofs/CastStrings.vo Proofs/CastStrings.glob Proofs/CastStrings.v.beautified Proofs/CastStrings.required_vo: Proofs/CastStrings.v Base/Val.vo Gen/Casts.vo Model/Cast.vo Proofs/Cast.vo
+Proofs/CastStrings.vio: Proofs/CastStrings.v Base/Val.vio Gen/Casts.vio Model/Cast.vio Proofs/Cast.vio
+Proofs/CastStrings.vos Proofs/CastStrings.vok Proofs/CastStrings.required_vos: Proofs/CastStrings.v Base/Val.vos Gen/Casts.vos Model/Cast.vos Proofs/Cast.vos
+Properties/C18.vo Properties/C18.glob Properties/C18.v.beautified Properties/C18.required_vo: Properties/C18.v Base/Val.vo Gen/Casts.vo Model/Cast.vo Proofs/Cast.vo Proofs/CastStrings.vo
+Properties/C18.vio: Properties/C18.v Base/Val.vio Gen/Casts.vio Model/Cast.vio Proofs/Cast.vio Proofs/CastStrings.vio
+Properties/C18.vos Properties/C18.vok Properties/C18.required_vos: Properties/C18.v Base/Val.vos Gen/Casts.vos Model/Cast.vos Proofs/Cast.vos Proofs/CastStrings.vos
+Run/C07_run.vo Run/C07_run.glob Run/C07_run.v.beautified Run/C07_run.required_vo: Run/C07_run.v Base/Val.vo Base/PyArith.vo Gen/Parallelize.vo Gen/Layout.vo Model/Layout.vo
+Run/C07_run.vio: Run/C07_run.v Base/Val.vio Base/PyArith.vio Gen/Parallelize.vio Gen/Layout.vio Model/Layout.vio
+Run/C07_run.vos Run/C07_run.vok Run/C07_run.required_vos: Run/C07_run.v Base/Val.vos Base/PyArith.vos Gen/Parallelize.vos Gen/Layout.vos Model/Layout.vos
+Run/C17_run.vo Run/C17_run.glob Run/C17_run.v.beautified Run/C17_run.required_vo: Run/C17_run.v Base/Val.vo Base/Num.vo Base/NumSqrt.vo Model/Stats.vo
+Run/C17_run.vio: Run/C17_run.v Base/Val.vio Base/Num.vio Base/NumSqrt.vio Model/Stats.vio
+Run/C17_run.vos Run/C17_run.vok Run/C17_run.required_vos: Run/C17_run.v Base/Val.vos Base/Num.vos Base/NumSqrt.vos Model/Stats.vos
 Run/C18_run.vo Run/C18_run.glob Run/C18_run.v.beautified Run/C18_run.required_vo: Run/C18_run.v Base/Val.vo Model/Cast.vo
 Run/C18_run.vio: Run/C18_run.v Base/Val.vio Model/Cast.vio
 Run/C18_run.vos Run/C18_run.vok Run/C18_run.required_vos: Run/C18_run.v Base/Val.vos Model/Cast.vos
